@@ -13,6 +13,36 @@ extern unsigned int Count_Lines(std::string filepath);
 using namespace libphysica;
 using namespace libphysica::natural_units;
 
+// the unit constants by name (seventh pass: `unit_fold` / `unit_start` cases compare each with the model's double evaluation of its initialiser)
+#define C20_UNIT_NAMES(X) \
+	X(yotta) X(zetta) X(exa) X(peta) X(tera) X(giga) X(mega) X(kilo) \
+	X(hecto) X(deca) X(deci) X(centi) X(milli) X(micro) X(nano) X(pico) \
+	X(femto) X(atto) X(zepto) X(yocto) X(deg) X(arcmin) X(arcsec) X(GeV) \
+	X(meV) X(eV) X(keV) X(MeV) X(TeV) X(PeV) X(Joule) X(erg) \
+	X(Rydberg) X(cal) X(gram) X(kg) X(tonne) X(lbs) X(AMU) X(cm) \
+	X(mm) X(meter) X(km) X(fm) X(inch) X(foot) X(yard) X(mile) \
+	X(Angstrom) X(Bohr_Radius) X(barn) X(pb) X(acre) X(hectare) X(sec) X(ms) \
+	X(ns) X(minute) X(hr) X(day) X(week) X(year) X(Hz) X(Newton) \
+	X(dyne) X(Watt) X(Pa) X(hPa) X(kPa) X(bar) X(barye) X(Kelvin) \
+	X(Elementary_Charge) X(Coulomb) X(Volt) X(Ampere) X(Farad) X(Tesla) X(Gauss) X(Weber) \
+	X(Ohm) X(Siemens) X(mole) X(mProton) X(mNeutron) X(mNucleon) X(mUp) X(mDown) \
+	X(mCharm) X(mStrange) X(mTop) X(mBottom) X(mElectron) X(mMuon) X(mTau) X(mZ) \
+	X(mW) X(mHiggs) X(aEM) X(mPlanck) X(mPlanck_reduced) X(G_Newton) X(G_Fermi) X(Higgs_VeV) \
+	X(QCD_scale) X(mEarth) X(mSun) X(rEarth) X(rSun) X(AU) X(pc) X(kpc) \
+	X(Mpc) X(ly)
+static bool unit_by_name(const std::string& n, double& v)
+{
+#define X(NAME) \
+	if(n == #NAME) \
+	{ \
+		v = libphysica::natural_units::NAME; \
+		return true; \
+	}
+	C20_UNIT_NAMES(X)
+#undef X
+	return false;
+}
+
 // header text: "-" = empty string, otherwise hex-encoded bytes
 static std::string unhex(const std::string& h)
 {
@@ -466,6 +496,17 @@ static void handler(vh::Reader& r, vh::Out& o)
 			o.fl(Import_List(path, dims.empty() ? 1.0 : dims[0], (unsigned int) ign));
 		else
 			put_table(o, Import_Table(path, dims, (unsigned int) ign));
+	}
+	else if(op == "unit_fold" || op == "unit_start")
+	{
+		// the value the library's constant holds after start-up (the model evaluates its initialiser: folded at compile time /
+		// start-up with the listed constants initialised dynamically; the list is for the model only)
+		std::string name = r.word();
+		double v = 0.0;
+		if(unit_by_name(name, v))
+			o.f(v);
+		else
+			o.w("HARNESSERR unknown_constant");
 	}
 	else if(op == "units")
 		o.w("see-extra-stage");	  // unit configurations are checked by checks/C20.py:extra (replay placeholder)
